@@ -386,7 +386,7 @@ func main() {
 	bin := buildHarness(prop)
 	defer cleanup()
 	fmt.Printf("simdrv: built instrumented harness in %.1fs\n", time.Since(start).Seconds())
-	replayDir := filepath.Join(verifDir, "replays", prop)
+	replayDir := filepath.Join(envOr("VERIF_REPLAYS", filepath.Join(verifDir, "replays")), prop) // VERIF_REPLAYS: parallel regression shards keep their replay files apart
 
 	if *replay != "" {
 		abs, _ := filepath.Abs(*replay)
@@ -429,6 +429,7 @@ func main() {
 		}
 	}
 	detPairs, detMismatch, detProcsDependent, detLogOnly := 0, 0, 0, 0
+	detBroken := ""
 	if nDet > 0 {
 		var idx []int
 		for i := 0; i < nDet; i++ {
@@ -518,12 +519,20 @@ func main() {
 			die(2, "determinism self-test could not run: %v", firstErr)
 		}
 		if detMismatch > 0 {
-			die(2, "determinism self-test: %d of %d seeds reach different verdicts in two processes with the same GOMAXPROCS - nothing this run reports can be trusted", detMismatch, detPairs)
+			// The code under test behaves differently in two identical processes (it lets a
+			// map's iteration order decide a result, say). A clean batch on such a tree means
+			// nothing, so without a confirmed violation the check ends with exit 2 below. A
+			// violation is still a fact about one execution of the real code: it is reported
+			// if a fresh process reproduces it from its replay file (tried up to 5 times).
+			detBroken = fmt.Sprintf("determinism self-test: %d of %d seeds reach different verdicts in two processes with the same GOMAXPROCS - nothing this run reports can be trusted", detMismatch, detPairs)
+			fmt.Printf("simdrv: %s; exploring anyway: only a violation that a fresh process reproduces will be reported\n", detBroken)
 		}
 		if detLogOnly > 0 {
 			fmt.Printf("simdrv: note: for %d of %d seeds two identical processes reached the same verdict through different event logs: the code under test is nondeterministic in itself (e.g. it ranges over a map inside instrumented code); replay files of this tree may not reproduce step by step\n", detLogOnly, detPairs)
 		}
-		if detProcsDependent > 0 {
+		if detBroken != "" {
+			// no "ok" line
+		} else if detProcsDependent > 0 {
 			fmt.Printf("simdrv: determinism self-test ok (%d seeds x 6 processes: identical event logs for equal GOMAXPROCS; %d seeds differ ACROSS GOMAXPROCS 1/4/16, i.e. the code under test depends on GOMAXPROCS itself) at %.1fs\n", detPairs, detProcsDependent, time.Since(start).Seconds())
 		} else {
 			fmt.Printf("simdrv: determinism self-test ok (%d seeds x 6 processes at GOMAXPROCS 1/4/16 twice each, identical event logs) at %.1fs\n", detPairs, time.Since(start).Seconds())
@@ -618,13 +627,23 @@ func main() {
 	sort.Strings(agg.Violations)
 	confirmed := []string{}
 	seenClass := map[string]bool{}
-	replayOnce := func(path string, tag string, procs int) string {
-		cfg := workerCfg{Property: prop, Mode: "replay", Tier: tier, VerifSeed: seed, NWorkers: 1, OutFile: filepath.Join(scratch, "confirm-"+tag+".json"), Replay: path, Findings: openIDs, MaxProcs: procs}
-		s, err := runWorker(bin, cfg, 30*time.Minute)
-		if err != nil {
-			die(2, "replay of %s failed to run: %v", path, err)
+	replayOnce := func(path string, tag string, procs int, want string) string {
+		tries := 1
+		if detBroken != "" {
+			tries = 5 // the tree is nondeterministic in itself: a faithful replay may still miss
 		}
-		return s.Determinism["class"]
+		got := ""
+		for n := 0; n < tries; n++ {
+			cfg := workerCfg{Property: prop, Mode: "replay", Tier: tier, VerifSeed: seed, NWorkers: 1, OutFile: filepath.Join(scratch, "confirm-"+tag+".json"), Replay: path, Findings: openIDs, MaxProcs: procs}
+			s, err := runWorker(bin, cfg, 30*time.Minute)
+			if err != nil {
+				die(2, "replay of %s failed to run: %v", path, err)
+			}
+			if got = s.Determinism["class"]; got == want {
+				break
+			}
+		}
+		return got
 	}
 	irreproducible := []string{}
 	for i, v := range agg.Violations {
@@ -651,7 +670,7 @@ func main() {
 		if eprocs <= 0 {
 			eprocs = 4
 		}
-		if replayOnce(v, tag, eprocs) != class {
+		if replayOnce(v, tag, eprocs, class) != class {
 			// The violation may depend on state that earlier runs of the same worker
 			// process left behind (itself a cross-call leak). Replay the run after the
 			// runs that preceded it in that worker, then shorten that prefix.
@@ -667,7 +686,7 @@ func main() {
 				tb, _ := json.MarshalIndent(rf, "", " ")
 				tmp := filepath.Join(scratch, "prefix-"+tag+"-"+sub+".json")
 				os.WriteFile(tmp, tb, 0o644)
-				return replayOnce(tmp, tag+"-"+sub, int(procs)) == class
+				return replayOnce(tmp, tag+"-"+sub, int(procs), class) == class
 			}
 			if len(prefix) == 0 || !try(prefix, rf["tape_before_shrinking"], "full") {
 				irreproducible = append(irreproducible, fmt.Sprintf("%s (%s)", v, class))
@@ -690,7 +709,7 @@ func main() {
 			delete(rf, "tape_before_shrinking")
 			fb, _ := json.MarshalIndent(rf, "", " ")
 			os.WriteFile(v, fb, 0o644)
-			if replayOnce(v, tag+"-final", int(procs)) != class {
+			if replayOnce(v, tag+"-final", int(procs), class) != class {
 				irreproducible = append(irreproducible, fmt.Sprintf("%s (%s)", v, class))
 				os.Remove(v)
 				continue
@@ -704,6 +723,9 @@ func main() {
 		seenClass[class] = true
 		confirmed = append(confirmed, v)
 		fmt.Printf("simdrv: %s: %s\n", class, detail)
+	}
+	if len(confirmed) == 0 && detBroken != "" {
+		die(2, "%s", detBroken)
 	}
 	if len(confirmed) == 0 && len(irreproducible) > 0 {
 		die(2, "%d violation report(s) did not reproduce in a fresh process, even after the runs that preceded them: %s", len(irreproducible), strings.Join(irreproducible, "; "))
